@@ -317,6 +317,8 @@ impl<E> Topic<E> {
             })                                                                                                           // [C10.refused_replier_is_told_before_it_is_closed C11.refused_with_error_frame]
         &&& self.next_id + self.handle.budget() < usize::MAX        // fewer than 2^64 registrations per topic (stated assumption)
         &&& (self.server is Some ==> self.server->Some_0.1.src_id() == SRC_SERVER())
+        // an id names one requestor stream for the life of the topic: every id ever handed out is below the counter
+        &&& forall|k: usize| #[trigger] self.stream.ever().contains(k) ==> k < self.next_id
         // requestor ids are never reused: every registered requestor sink has an id below the counter
         &&& forall|k: usize| #[trigger] self.sink.view().contains_key(k) ==> k < self.next_id
     }
